@@ -27,12 +27,15 @@ pub struct Net {
 }
 
 impl Net {
-    pub fn new() -> Net {
+    pub fn new() -> Net { Net::with_echo(None) }
+    /// `echo`: messages of at most that many bytes are sent back from INSIDE the callback
+    pub fn with_echo(echo: Option<usize>) -> Net {
         let (ctl, mut processor) = network::split();
         let ctl = Arc::new(ctl);
         let events = Arc::new(Mutex::new(vec![]));
         let stop = Arc::new(AtomicBool::new(false));
         let (ev2, stop2) = (events.clone(), stop.clone());
+        let ctl2 = ctl.clone();
         let handle = std::thread::Builder::new().name("net-processor".into()).spawn(move || {
             // returns true if event processing panicked
             let r = std::panic::catch_unwind(std::panic::AssertUnwindSafe(|| {
@@ -41,7 +44,10 @@ impl Net {
                         let rec = match e {
                             NetEvent::Connected(ep, ok) => Ev::Connected(ep, ok),
                             NetEvent::Accepted(ep, l) => Ev::Accepted(ep, l),
-                            NetEvent::Message(ep, d) => Ev::Message(ep, d.to_vec()),
+                            NetEvent::Message(ep, d) => {
+                                if let Some(max) = echo { if d.len() <= max { ctl2.send(ep, d); } }
+                                Ev::Message(ep, d.to_vec())
+                            }
                             NetEvent::Disconnected(ep) => Ev::Disconnected(ep),
                         };
                         ev2.lock().unwrap().push((Instant::now(), rec));
@@ -229,6 +235,44 @@ pub fn run_framed(a: &Args) {
         }
         out.count("framed_wire_bytes_checked");
         out.case("framed wirebytes sizes 0..=300 + boundaries", &format!("{}", got == expected));
+        if nb.shutdown() { out.violation("[C17,C01] event processing panicked"); }
+    }
+    // (d) back-pressure: tens of thousands of small frames against a reader that starts late and
+    //     reads slowly, so that write() accepts only part of a frame now and then
+    {
+        let listener = TcpListener::bind("127.0.0.1:0").unwrap();
+        let addr = listener.local_addr().unwrap();
+        let nb = Net::new();
+        let (ep, _) = nb.ctl.connect(t, addr).unwrap();
+        let (mut peer, _) = listener.accept().unwrap();
+        nb.wait(3000, |ev| ev.iter().any(|e| matches!(e, Ev::Connected(e2, true) if *e2 == ep)));
+        let n = if a.thorough { 120_000 } else { 40_000 };
+        let sizes: Vec<usize> = (0..n).map(|i| (i * 37 + 11) % 900).collect();
+        let reader = std::thread::spawn(move || {
+            std::thread::sleep(Duration::from_millis(250));
+            let mut got = vec![];
+            let mut buf = vec![0u8; 7000];
+            peer.set_read_timeout(Some(Duration::from_secs(5))).unwrap();
+            loop {
+                match peer.read(&mut buf) { Ok(0) => break, Ok(k) => { got.extend_from_slice(&buf[..k]); if got.len() % 5 == 0 { std::thread::sleep(Duration::from_micros(50)); } } Err(_) => break }
+            }
+            got
+        });
+        let mut expected: Vec<u8> = vec![];
+        let mut not_sent = 0;
+        for (i, l) in sizes.iter().enumerate() {
+            let m = payload(i as u64 + 7000, *l);
+            if nb.ctl.send(ep, &m) != SendStatus::Sent { not_sent += 1; }
+            expected.extend(leb128(m.len() as u64)); expected.extend(&m);
+        }
+        nb.ctl.remove(ep.resource_id());
+        let got = reader.join().unwrap();
+        if got != expected || not_sent > 0 {
+            let pos = got.iter().zip(expected.iter()).position(|(x, y)| x != y).unwrap_or(got.len().min(expected.len()));
+            out.violation(&format!("[C01] {} small FramedTcp frames sent faster than the peer reads them (write() under back-pressure): the wire carries {} bytes instead of {}, first difference at offset {} although every send() answered Sent ({} did not)", n, got.len(), expected.len(), pos, not_sent));
+        }
+        out.count("framed_backpressure_small_frames");
+        out.case(&format!("framed backpressure n={}", n), &format!("{}", got == expected));
         if nb.shutdown() { out.violation("[C17,C01] event processing panicked"); }
     }
     out.finish();
@@ -484,6 +528,48 @@ pub fn run_ws(a: &Args) {
             out.case(&format!("ws stockclient burst {}", burst), &format!("{} {}", got.len(), got == msgs));
         }
         if na.shutdown() { out.violation("[C17,C01] event processing panicked"); }
+    }
+    // (b2) stop-and-wait from a plain thread against an echoing node: every send happens while the
+    //      sender's own network thread may be busy with (or queued for) the same connection
+    for (t2, rounds) in [(Transport::Ws, if a.thorough { 2000 } else { 300 }), (Transport::FramedTcp, if a.thorough { 2000 } else { 300 })] {
+        let echo = Net::with_echo(Some(4096));
+        let (_lid, addr) = echo.ctl.listen(t2, "127.0.0.1:0").unwrap();
+        let na = Net::new();
+        let (ep, _) = na.ctl.connect(t2, addr).unwrap();
+        na.wait(3000, |ev| ev.iter().any(|e| matches!(e, Ev::Connected(e2, true) if *e2 == ep)));
+        let mut lost = None;
+        for i in 0..rounds {
+            let m = payload(i as u64, 1 + (i % 200) as usize);
+            let st = na.ctl.send(ep, &m);
+            let ok = na.wait(2000, |_| na.messages_of(ep.resource_id()).len() > i as usize);
+            if st != SendStatus::Sent || !ok { lost = Some((i, st)); break; }
+        }
+        if let Some((i, st)) = lost {
+            out.violation(&format!("[C01,C10] {:?} stop-and-wait with an echoing peer: message #{} (send() answered {:?}) was not echoed within 2 s although the connection is up and idle", t2, i, st));
+        }
+        out.count("stop_and_wait_rounds");
+        out.case(&format!("stopandwait {:?} {}", t2, rounds), &format!("{:?}", lost.is_none()));
+        if na.shutdown() | echo.shutdown() { out.violation("[C17,C01] event processing panicked"); }
+    }
+    // (b3) a user thread is inside a long send() on the connection while the answer to its previous
+    //      small message arrives; then silence: the answer must still be delivered
+    for round in 0..(if a.thorough { 12 } else { 4 }) {
+        let echo = Net::with_echo(Some(4096));
+        let (_lid, addr) = echo.ctl.listen(t, "127.0.0.1:0").unwrap();
+        let na = Net::new();
+        let (ep, _) = na.ctl.connect(t, addr).unwrap();
+        na.wait(3000, |ev| ev.iter().any(|e| matches!(e, Ev::Connected(e2, true) if *e2 == ep)));
+        let small = payload(round, 100);
+        let big = payload(round + 50, 12 << 20);
+        na.ctl.send(ep, &small);
+        let st = na.ctl.send(ep, &big); // the echo of `small` arrives while this call holds the connection
+        let ok = na.wait(4000, |_| na.messages_of(ep.resource_id()).iter().any(|d| *d == small));
+        if !ok || st != SendStatus::Sent {
+            out.violation(&format!("[C01] Ws: the answer to a small message arrived while a user thread was inside a 12 MiB send() on the same connection and was never delivered afterwards (no further traffic); send status {:?}", st));
+        }
+        out.count("ws_receive_during_long_send");
+        out.case(&format!("ws recvduringsend {}", round), &format!("{}", ok));
+        if na.shutdown() | echo.shutdown() { out.violation("[C17,C01] event processing panicked"); }
     }
     // (c) Ws connector -> stock tungstenite server
     {
